@@ -37,6 +37,7 @@ type Spec struct {
 	Auth        map[string]string `json:"auth,omitempty"`
 	Req         ReqSpec           `json:"req"`
 	Resp        RespSpec          `json:"resp,omitempty"`
+	MoreReqs    []ReqSpec         `json:"more_reqs,omitempty"`    // request leg: further requests validated before any forwarded body is read
 	More        []RespSpec        `json:"more,omitempty"`         // response leg: further responses validated before any body is read back
 	ReadReverse bool              `json:"read_reverse,omitempty"` // read the bodies back in reverse order
 	ReadBuf     int               `json:"read_buf,omitempty"`     // buffer size of the next handler
@@ -444,6 +445,18 @@ func Gen(seed uint64, prop, tier string) *Spec {
 		}
 		q.GetBody = simfw.Pick(r, []string{"", "", "ok", "err"})
 		q.CLUnknown = r.Chance(1, 4)
+	}
+	// sometimes further requests are in flight: same shape, their own marker and delivery
+	if q.BodyMode == "stream" && q.Chunk.FaultAt == 0 && r.Chance(1, 4) {
+		for i, k := 0, r.Range(1, 2); i < k; i++ {
+			m := *q
+			m.Body = strings.ReplaceAll(q.Body, rq, fmt.Sprintf("%sn%d", rq, i+2))
+			m.Query = strings.ReplaceAll(q.Query, rq, fmt.Sprintf("%sn%d", rq, i+2))
+			m.Chunk = chunkPlan(r, len(m.Body), false)
+			m.GetBody = simfw.Pick(r, []string{"", "", "ok", "err"})
+			s.MoreReqs = append(s.MoreReqs, m)
+		}
+		s.ReadReverse = r.Bool()
 	}
 	return s
 }
